@@ -31,32 +31,32 @@ type Param struct {
 // FuncContract is the contract of one Go function (or function type / interface
 // method, in which case Params name the formal parameters).
 type FuncContract struct {
-	Kind      string // "func", "functype", "interface", "extern"
-	Target    string // as written: "(Bytes).TrimSpaces", "stateInString", "bytes.Equal"
-	ScopePkg  string // import path whose scope resolves names
-	Params    []Param
-	Results   []Param
-	Requires  []Clause
-	Ensures   []Clause
-	Defines   []Clause // definitional postconditions: assumed at call sites, not checked against the body (listed as assumptions)
-	Keeps     []string // with `modifies *` on a trusted contract: element memory of these Go types is left unchanged for arrays that existed before the call
-	Assumes   []Clause // assumed at function entry, NOT checked at call sites (shape of the input the caller cannot express); listed as assumptions
-	Modifies  []Clause // expressions p.f / p.f[*]; a single "*" identifier = everything
-	ModAll    bool
-	Decreases *Clause
-	Loops     map[int]*LoopSpec
-	Trusted   string // non-empty: assumed, never checked (reason)
-	Pure      bool   // no heap effect, no panic, result is a function of arguments
-	NoPanic   bool   // function never panics (explicit panics are obligations)
-	MayPanic  bool   // runtime panics are allowed behaviour (contract must describe them)
-	Inline    bool
-	Uses      []string
-	UseCalls  []Clause // lemma instances (name(args)) assumed at function entry
-	Refines   string // functype contract this function implements, e.g. "stepFunc"
-	Implements string // interface method contract this method implements, e.g. "Err.Code"
-	Props     []string
-	File      string
-	Line      int
+	Kind       string // "func", "functype", "interface", "extern"
+	Target     string // as written: "(Bytes).TrimSpaces", "stateInString", "bytes.Equal"
+	ScopePkg   string // import path whose scope resolves names
+	Params     []Param
+	Results    []Param
+	Requires   []Clause
+	Ensures    []Clause
+	Defines    []Clause // definitional postconditions: assumed at call sites, not checked against the body (listed as assumptions)
+	Keeps      []string // with `modifies *` on a trusted contract: element memory of these Go types is left unchanged for arrays that existed before the call
+	Assumes    []Clause // assumed at function entry, NOT checked at call sites (shape of the input the caller cannot express); listed as assumptions
+	Modifies   []Clause // expressions p.f / p.f[*]; a single "*" identifier = everything
+	ModAll     bool
+	Decreases  *Clause
+	Loops      map[int]*LoopSpec
+	Trusted    string // non-empty: assumed, never checked (reason)
+	Pure       bool   // no heap effect, no panic, result is a function of arguments
+	NoPanic    bool   // function never panics (explicit panics are obligations)
+	MayPanic   bool   // runtime panics are allowed behaviour (contract must describe them)
+	Inline     bool
+	Uses       []string
+	UseCalls   []Clause // lemma instances (name(args)) assumed at function entry
+	Refines    string   // functype contract this function implements, e.g. "stepFunc"
+	Implements string   // interface method contract this method implements, e.g. "Err.Code"
+	Props      []string
+	File       string
+	Line       int
 }
 
 type SpecFunc struct {
